@@ -16,7 +16,8 @@ THEOREMS = ["Ymq.C10." + t for t in (
     "dispatch_ok pack_unpack cycExact_exact kronecker_cyclic kronecker_old_index_drops_wrap "
     "reduce_spec add_assign_spec add_small_spec sub_assign_spec butterfly_spec shl_spec shr_spec sqrt2_sq twiddle_spec root_pow "
     "root_half crt_unique crt_value crt_q_estimate_partial ntt_table_ok dft_conv "
-    "basic_mul_spec karatsuba_spec karatsuba_domain mul_karatsuba_spec mul_karatsuba_zmod").split()]
+    "basic_mul_spec karatsuba_spec karatsuba_domain mul_karatsuba_spec mul_karatsuba_zmod "
+    "middlemul_spec middlemul_pub_spec inv_mod_xn_spec div_mod_xn_spec div_mod_xn_zmod").split()]
 HYPOTHESES = []
 PROFILES = ["release", "chk"]
 TIMEOUT = 60.0
@@ -47,6 +48,10 @@ MODELLED = [
     "arith_poly::Poly::{_basic_mul (double loop with the first-term rule), karatsuba (threshold, split point, three recursive products, "
     "recombination, buffer reuse incl. stale contents), mul_karatsuba, mul_basic} over abstract coefficient operations, run by the driver on "
     "residues mod n (Ymq/Model/PolyMul.lean)",
+    "arith_poly::Poly::{_longmul (NTT/Karatsuba switch), _middlemul (base cases, both NTT shortcuts, Hanrot-Quercia-Zimmermann recursion with "
+    "its operand slices), _middlemul_xn, _middlemul_1x, _inv_mod_xn and _div_mod_xn (Newton iteration: base cases, precision schedule, "
+    "1+xC shortcut conditions after the fix, general branch), middlemul, div_mod_xn} at value level with every assert/slice/index/scratch-"
+    "length panic site; convolve_modn_ntt inside them is the exact convolution with its asserts (Ymq/Model/PolySeries.lean)",
 ]
 UNMODELLED = [
     "ZmodN::{mul, add, sub, redc, redc_large} are exact modular arithmetic on residues on the domain proved in C07 (redc_large_spec, "
